@@ -18,6 +18,7 @@
 (*     HistoryFree  the same use (same key) observed after different       *)
 (*                  prefixes gives the same observable result              *)
 (*     Concurrent   every goroutine's own round trips succeeded            *)
+(*     Crash        the codec panicked (no result at all)                  *)
 (*   conformance (class "Model": the code left the model; not a verdict    *)
 (*   about the property): per operation the values returned, the writes    *)
 (*   to the sink, the cut into blocks, the result of every Read, computed  *)
@@ -63,8 +64,13 @@ W_RoundTrip(e) ==
   Complete(e) => /\ \A i \in DOMAIN e.ops : ~e.ops[i].err /\ (e.ops[i].op \in {"write", "readfrom"} => e.ops[i].ret = e.ops[i].n)
                  /\ e.total = Requested(e.ops)
                  /\ e.refok /\ e.eq /\ e.declen = e.total
-W_Obs(e) == [rets |-> [i \in DOMAIN e.ops |-> <<e.ops[i].ret, e.ops[i].err>>], refok |-> e.refok, eq |-> e.eq,
-             declen |-> e.declen, total |-> e.total]
+(* what a user of the writer can observe: the values returned, and -- once the stream is complete -- what a   *)
+(* decoder makes of the output.  The part of an abandoned (never closed) stream that happens to have reached  *)
+(* the sink already is not an observable: it depends on the cut into blocks.                                  *)
+W_Obs(e) ==
+  LET rets == [i \in DOMAIN e.ops |-> <<e.ops[i].ret, e.ops[i].err>>] IN
+  IF e.closed THEN [rets |-> rets, refok |-> e.refok, eq |-> e.eq, declen |-> e.declen, total |-> e.total]
+  ELSE [rets |-> rets, refok |-> TRUE, eq |-> TRUE, declen |-> 0, total |-> e.total]
 
 W_Model(e) ==
   LET framed == e.mode = "framed"
@@ -110,6 +116,7 @@ R_Model(e) ==
 -----------------------------------------------------------------------------
 Classes(e) ==
   IF e.ev = "conc" THEN (IF e.fails = 0 /\ e.iters > 0 THEN {} ELSE {"Concurrent"})
+  ELSE IF e.ev = "crash" THEN {"Crash"}          \* the codec panicked inside this use
   ELSE IF e.ev # "use" THEN {}
   ELSE LET hf == (e.kind = "r" \/ e.budget = -1) /\ e.key \in DOMAIN base
            obs == IF e.kind = "w" THEN W_Obs(e) ELSE R_Obs(e)
